@@ -187,14 +187,14 @@ func init() {
 	}
 	Register(&Prop{
 		ID:    "C03",
-		Rule:  "journals rendered from a model of grammar G (DESIGN 4.2): every single feature and feature pairs forced on a plain background (with and without neighbour entries), then random journals of 2-6 entries with <=3 non-plain features per entry; clean pool excludes the feature sets listed as findings, known pool forces exactly those. Oracle: parser.Parse reports no error, the server publishes no code-less diagnostic, and the projection of the AST equals the model (exact rationals). Non-trivial = contains a transaction with >=1 posting; distinct by text hash.",
+		Rule:  "journals rendered from a model of grammar G (DESIGN 4.2): every single feature and feature pairs forced on a plain background (with and without neighbour entries), then random journals of 2-6 entries with <=3 non-plain features per entry (an eighth of them end with a year history: Y directive, entry with a partial date, another Y directive, entry on the same day spelled the same way); clean pool excludes the feature sets listed as findings, known pool forces exactly those. Oracle: parser.Parse reports no error, the server publishes no code-less diagnostic, and the projection of the AST equals the model (exact rationals). Non-trivial = contains a transaction with >=1 posting; distinct by text hash.",
 		Notes: []string{"the model renderer and the comparison are the trusted base", "features outside DESIGN 4.2 are not generated", "a new defect that needs a listed known-bad feature to show is masked"},
 		Cases: func(tier string) int64 {
 			sizes()
 			sr, ps, rnd := c03Counts(tier)
 			return int64(uniN*sr*2) + int64(pairN/ps+1) + rnd + 64*c03KnownReps
 		},
-		MustObserve: []string{"parsed", "published", "known_pool_cases"},
+		MustObserve: []string{"year_history_cases", "parsed", "published", "known_pool_cases"},
 		Setup: func(c *Ctx) {
 			st := &c03State{}
 			st.plan = buildPlan(c.Known, "C03")
@@ -262,6 +262,9 @@ func runC03(c *Ctx, idx int64) {
 		g := NewGen(r, st.bad)
 		j = g.Journal(r.Range(2, 6))
 		c.Count("random_cases", 1)
+		if r.Chance(1, 8) && appendYearHistory(g, j) {
+			c.Count("year_history_cases", 1)
+		}
 	default:
 		// known pool: re-confirm each listed finding
 		k := int(idx-nS-nP-rnd) / c03KnownReps
@@ -339,6 +342,38 @@ func runC03(c *Ctx, idx int64) {
 	}
 	c.Violate(Violation{Kind: kind, Sig: sig, Pool: pool, Features: feats, Detail: detail,
 		Witness: map[string]any{"text": rd.Text, "features": j.AllFeats(), "entry": entry}})
+}
+
+// appendYearHistory ends the journal with: Y directive, entry with a partial date, another Y
+// directive, entry on the same day spelled the same way (a closing entry every 12/31): a partial
+// date belongs to the year in force where it stands, however often its spelling occurred before.
+func appendYearHistory(g *Gen, j *MJournal) bool {
+	mk := func(kind, force string) *MEntry {
+		g.force[force] = true
+		e := g.Entry(kind)
+		delete(g.force, force)
+		return e
+	}
+	y1 := mk("dir", "dir.Y")
+	t1 := mk("tx", "date.partial")
+	y2 := mk("dir", "dir.Y")
+	t2 := mk("tx", "date.partial")
+	if y1.Dir == nil || y2.Dir == nil || y1.Dir.Year == 0 || y2.Dir.Year == 0 || t1.Tx == nil || t2.Tx == nil || !t1.Tx.Date.Partial || !t2.Tx.Date.Partial {
+		return false
+	}
+	// the last date read before the second directive is the one that comes back behind it
+	last := t1.Tx.Date
+	if t1.Tx.Date2 != nil {
+		if !t1.Tx.Date2.Partial {
+			t1.Tx.Date2 = nil
+		} else {
+			last = *t1.Tx.Date2
+		}
+	}
+	last.Y = y2.Dir.Year
+	t2.Tx.Date = last
+	j.Entries = append(j.Entries, y1, t1, y2, t2)
+	return true
 }
 
 // MinimalFailing reduces a failing feature set to the smallest subset (size <= 3) that fails
